@@ -713,6 +713,11 @@ func (t *AHtree) DataAt(n uint64) ([]byte, error) {
 	pOff := binary.BigEndian.Uint64(b[:])
 	pSize := binary.BigEndian.Uint32(b[offsetSize:])
 
+	if pOff > uint64(t.pLogSize) || pOff+uint64(szSize)+uint64(pSize) > uint64(t.pLogSize) {
+		// the payload must lie within the payload log, a buffer of the announced size is allocated
+		return nil, ErrorCorruptedData
+	}
+
 	p := make([]byte, pSize)
 	if pSize > 0 {
 		_, err = t.pLog.ReadAt(p[:], int64(pOff+szSize))
